@@ -699,6 +699,8 @@ def run_seq(steps, keep=False):
                     obs["inprog"] = sorted(after, key=str)
                 obs["trace"] = w.log
                 obs["out"] = out
+                if step.get("manual") and checker is not None:
+                    obs["manual"] = _manual_verdict(w, step, checker)
                 results.append(obs)
         finally:
             if token is not None:
@@ -707,6 +709,60 @@ def run_seq(steps, keep=False):
     finally:
         if orig_gen is not None:
             _rep.generate_message = orig_gen
+
+
+def _manual_verdict(w, step, checker):
+    """Judge the call by hand from the introspected lists, the way the documented integrators do
+    (tests/test_for_integrators.py): select_condition_kwargs / select_capture_kwargs / Old."""
+    bound = py_bind(step)
+    if bound is None:
+        return None
+    kwargs = {}
+    for n, v in bound.items():
+        if v[0] == "o":
+            kwargs[n] = w.objs.get(v[1]) if v[1] in w.objs else w.val(v[1])
+        elif v[0] == "t":
+            kwargs[n] = tuple(w.val(i) for i in v[1])
+        else:
+            kwargs[n] = dict((k, w.val(i)) for k, i in v[1])
+    saved = w.log
+    w.log = []
+    try:
+        pre = getattr(checker, "__preconditions__")
+        success = True
+        for group in pre:
+            success = True
+            for contract in group:
+                ck = _ck.select_condition_kwargs(contract=contract, resolved_kwargs=kwargs)
+                success = bool(contract.condition(**ck))
+                if not success:
+                    break
+            if success:
+                break
+        res = {"pre": success, "post": None}
+        if success and _ans_kind(step["body"]) == "ret":
+            posts = getattr(checker, "__postconditions__")
+            snaps = getattr(checker, "__postcondition_snapshots__")
+            kw2 = dict(kwargs)
+            if posts and snaps:
+                old = {}
+                for sn in snaps:
+                    ck = _ck.select_capture_kwargs(a_snapshot=sn, resolved_kwargs=kw2)
+                    old[sn.name] = sn.capture(**ck)
+                kw2["OLD"] = _ck.Old(mapping=old)
+            kw2["result"] = None if step["kind"] == "init" else w.val(step["body"]["ret"]["v"])
+            ok = True
+            for contract in posts:
+                ck = _ck.select_condition_kwargs(contract=contract, resolved_kwargs=kw2)
+                if not contract.condition(**ck):
+                    ok = False
+                    break
+            res["post"] = ok
+        return res
+    except BaseException as e:  # noqa: B902
+        return {"error": "%s: %s" % (type(e).__name__, str(e)[:100])}
+    finally:
+        w.log = saved
 
 
 def model_view(case, mo):
